@@ -731,7 +731,14 @@ func (c *ctx) caseTruth(which string, k int, want string, q string, flags string
 			// a leaf that asks for a token the index side never stores for these words (wrong case rule, lost bytes ...) is
 			// the parser's doing, not the search's
 			if miss := foreignLeaf(root, k, cs); miss != "" {
-				c.violate("parser:"+which, "meaning-changed", fmt.Sprintf("%q (case-sensitive=%v) asks for the token %s, which the indexer never stores for the written words: searching returns documents %s, the written expression denotes %s", q, cs, miss, got2, want), replay)
+				site, class := "parser:"+which, "meaning-changed"
+				if strings.Contains(miss, ":[") { // a point range whose bound is not the term the literal of the same text gets
+					site, class = "parser/token_range.go:parseRangeTerm", "range-bound-not-literal-term"
+					if which == "legacy" {
+						site = "parser/token_parser.go:parseRangeTerm"
+					}
+				}
+				c.violate(site, class, fmt.Sprintf("%q (case-sensitive=%v) asks for the token %s, which the indexer never stores for the written words: searching returns documents %s, the written expression denotes %s", q, cs, miss, got2, want), replay)
 				return
 			}
 			c.violate("frac/processor/search.go:IndexSearch", "meaning-changed", fmt.Sprintf("searching with %q (order %v) returns documents %s, the written expression denotes %s", q, order, got2, want), replay)
@@ -851,18 +858,21 @@ func (c *ctx) runTruth(r *vh.RNG) {
 		}
 	}
 	// upper-case bounds: ASCII (case-insensitive configuration: `[V0, V0]` = `v0`) and the non-ASCII cased letters (both
-	// configurations, the fake index follows); SeqQL (legacy range bounds are never lower-cased, see the report)
-	for a := 0; a < 3; a++ {
-		for _, rng := range []bool{false, true} {
-			e := &E{op: 'a', atoms: []int{a}, val: fmt.Sprintf("V%d", a), rng: rng}
-			c.caseTruth("seqql", 3, e.tree().table(3), e.render(style{}, nil, 0), "", "ranges")
+	// configurations, the fake index follows), in both query languages
+	for _, which := range []string{"seqql", "legacy"} {
+		st := style{legacy: which == "legacy"}
+		for a := 0; a < 3; a++ {
+			for _, rng := range []bool{false, true} {
+				e := &E{op: 'a', atoms: []int{a}, val: fmt.Sprintf("V%d", a), rng: rng}
+				c.caseTruth(which, 3, e.tree().table(3), e.render(st, nil, 0), "", "ranges")
+			}
 		}
-	}
-	for _, d := range casedDecos {
-		e := &E{op: 'a', atoms: []int{1}, deco: d, rng: true}
-		for _, outer := range []*E{e, {op: '&', l: &E{op: 'a', atoms: []int{0}}, r: &E{op: '!', l: e}}} {
-			for _, flags := range []string{"", "cs"} {
-				c.caseTruth("seqql", 3, outer.tree().table(3), outer.render(style{}, nil, 0), flags, "ranges")
+		for _, d := range casedDecos {
+			e := &E{op: 'a', atoms: []int{1}, deco: d, rng: true}
+			for _, outer := range []*E{e, {op: '&', l: &E{op: 'a', atoms: []int{0}}, r: &E{op: '!', l: e}}} {
+				for _, flags := range []string{"", "cs"} {
+					c.caseTruth(which, 3, outer.tree().table(3), outer.render(st, nil, 0), flags, "ranges")
+				}
 			}
 		}
 	}
